@@ -294,7 +294,7 @@ func fingerprint(dir string) string {
 }
 
 func profDirLock(en *Env) {
-	rounds := 3 * en.Scale
+	rounds := 8 * en.Scale
 	steps := 40
 	if en.Thorough() {
 		rounds = 25 * en.Scale
